@@ -29,6 +29,11 @@ CHECKS['C10'] = ('complete enumeration of the bundled vocabularies (1522 Unimod,
                  '{mod_mass mono, avg, mod_comp, mass of K[spelling]}; tabulated mass vs frozen-table mass of the '
                  'tabulated composition; enumerated Formula:/Glycan: forms, prefixed shifts and decorations',
                  'DESIGN.md section 4 / C10')
+CHECKS['C17'] = ('every pair of sorted m/z lists (with repetitions) of length 0..3 (quick) / 0..4 (thorough) over a dyadic '
+                 '6-value grid x {th,ppm} x 5 tolerances each x {all,closest,largest} x every intensity assignment, '
+                 'against a quadratic brute-force matcher; fragment-match layer over every ordered selection of <=3 of 6 '
+                 'real fragments x <=3 of 6 peaks (order independence, intensity share, coverage)',
+                 'DESIGN.md section 4 / C17')
 NOT_APPLICABLE = {}
 
 
